@@ -57,10 +57,6 @@ impl Report {
         );
     }
 
-    pub fn has_violation(&self, key: &str) -> bool {
-        self.violations.contains_key(key)
-    }
-
     pub fn sample(&mut self, v: Value) {
         if self.samples.len() < 24 {
             self.samples.push(v);
